@@ -114,7 +114,47 @@ pub fn run(ctx: &Ctx) -> Result<Ev, String> {
     let shards = 32usize;
     let per = (if ctx.thorough { 1_500_000 } else { 120_000 } / shards) as u32;
     let seed = ctx.seed;
-    let total = par::run_shards("C14", shards, |s| par::prop_shard("C14", seed, s, per, &pair(), |c, ev| test(c, ev, &devices)));
+    let mut total = par::run_shards("C14", shards, |s| par::prop_shard("C14", seed, s, per, &pair(), |c, ev| test(c, ev, &devices)));
+    // radix leg: values at the edges of every width up to and beyond 64 bits, each written in every radix
+    // the grammar has — whatever the decimal spelling gives (a value or a failure), the others give too
+    {
+        let mut values: Vec<u128> = vec![0, 1, 7, 8, 9, 10, 15, 16, 63, 64, 255, 256, 65535, 65536];
+        for k in [31u32, 32, 62, 63, 64, 65, 70] {
+            for d in [-1i128, 0, 1] {
+                values.push(((1i128 << k) + d) as u128);
+            }
+        }
+        for v in values {
+            let spellings: Vec<(&str, String)> = vec![
+                ("hex-0x", format!("0x{:x}", v)),
+                ("hex-0x-upper-digits", format!("0x{:X}", v)),
+                ("hex-dollar", format!("${:x}", v)),
+                ("hex-padded", format!("0x000{:x}", v)),
+                ("binary", format!("0b{:b}", v)),
+                ("octal", format!("0{:o}", v)),
+                ("decimal-padded-by-nothing", format!("{}", v)),
+            ];
+            for (ctx_name, template) in [("dq", ".dq {}"), ("low-in-db", ".db low({}), 1"), ("equ-and-mask", ".equ c14_v = {}\n.dw c14_v & 0xffff"), ("ldi-low", "ldi r16, low({})"), ("if", ".if {} > 5\nnop\n.else\nret\n.endif")] {
+                let a = template.replace("{}", &v.to_string());
+                for (sname, text) in &spellings {
+                    if *sname == "octal" && v == 0 {
+                        continue;
+                    }
+                    let b = template.replace("{}", text);
+                    total.eval();
+                    total.class(&format!("radix-leg:{}", sname));
+                    if v >= (1u128 << 63) - 1 {
+                        total.nt(fp(&b));
+                    }
+                    let chk = Check::Same { a: a.clone(), b: b.clone(), messages: true, allow_both_fail: true };
+                    if let Err(why) = chk.eval() {
+                        let k = if why.contains("anic") { "panic" } else if why.contains("differ in kind") { "validity-changed" } else { "output-changed" };
+                        total.violation(Violation { sig: format!("c14:radix-leg:{}:{}:{}", sname, ctx_name, k), what: format!("`{}` against `{}`: {}", b.replace('\n', " | "), a.replace('\n', " | "), why), replay: chk.to_json() });
+                    }
+                }
+            }
+        }
+    }
     if total.has_violation() {
         return Ok(total);
     }
@@ -131,5 +171,5 @@ pub fn run(ctx: &Ctx) -> Result<Ev, String> {
 }
 
 pub fn rule() -> String {
-    "proptest: a valid program from the union of the layout (C02), branch-placement (C03, incl. pc-relative operands), expression (C05), data (C06), conditional (C08), macro (C09) and symbol (C10) generators × two independently generated styles; a style switches each of nine dimensions on or off (trailing ; // /* */ comments with hostile text, inserted blank and comment-only lines, runs of spaces/tabs at the permitted positions, LF/CRLF per line, letter case of mnemonics, registers, function names, symbol references, radix and zero padding of each literal) and draws per-token decisions from a seeded stream. Oracle: both renderings give exactly the canonical rendering's result (code, eeprom, sizes, ram_filling, message texts) or fail like it. Non-trivial = the two styles together use ≥3 dimensions, at least one token-level (case or radix), and the two texts differ; distinct = distinct pair of texts".into()
+    "proptest: a valid program from the union of the layout (C02), branch-placement (C03, incl. pc-relative operands), expression (C05), data (C06), conditional (C08), macro (C09) and symbol (C10) generators × two independently generated styles; a style switches each of nine dimensions on or off (trailing ; // /* */ comments with hostile text, inserted blank and comment-only lines, runs of spaces/tabs at the permitted positions, LF/CRLF per line, letter case of mnemonics, registers, function names, symbol references, radix and zero padding of each literal) and draws per-token decisions from a seeded stream. Radix leg: values around 2^31, 2^32, 2^62..2^65, 2^70 and small ones, written as 0x / 0X-digits / $ / zero-padded hex, binary and octal in five contexts, against the decimal spelling. Oracle: both renderings give exactly the canonical rendering's result (code, eeprom, sizes, ram_filling, message texts) or fail like it. Non-trivial = the two styles together use ≥3 dimensions, at least one token-level (case or radix), and the two texts differ; distinct = distinct pair of texts".into()
 }
